@@ -8,6 +8,7 @@ import (
 	"os"
 	"os/exec"
 	"runtime"
+	"runtime/debug"
 	"runtime/metrics"
 	"strconv"
 	"strings"
@@ -49,6 +50,17 @@ const workerASLimit = 2 << 30
 // must get stuck again, twice, when re-run alone before it is reported.
 const noProgress = 40 * time.Second
 
+// currentVMSize is the size of the process's address space in bytes (from /proc/self/statm; 0 if unavailable).
+func currentVMSize() uint64 {
+	b, err := os.ReadFile("/proc/self/statm")
+	if err != nil {
+		return 0
+	}
+	var pages uint64
+	fmt.Sscanf(string(b), "%d", &pages)
+	return pages * uint64(os.Getpagesize())
+}
+
 func allocBytes() uint64 {
 	s := []metrics.Sample{{Name: "/gc/heap/allocs:bytes"}}
 	metrics.Read(s)
@@ -68,8 +80,6 @@ func init() {
 		quick := args[1] != "thorough"
 		lo, _ := strconv.Atoi(args[2])
 		hi, _ := strconv.Atoi(args[3])
-		lim := syscall.Rlimit{Cur: workerASLimit, Max: workerASLimit}
-		_ = syscall.Setrlimit(syscall.RLIMIT_AS, &lim)
 		var t corruptTarget
 		if snap := os.Getenv("VERIF_CORRUPT_SNAPSHOT"); snap != "" && corruptRestore[args[0]] != nil {
 			if b, err := os.ReadFile(snap); err == nil {
@@ -81,6 +91,13 @@ func init() {
 		if t == nil {
 			t = mk(quick)
 		}
+		// the address-space limit is set AFTER the case list and the base images are in memory, and relative to what the
+		// process occupies then: the thorough tiers hold more than a million cases, and what the limit is there for is the
+		// reader under test (an allocation of more than workerASLimit beyond this point kills the worker at once)
+		runtime.GC()
+		debug.FreeOSMemory()
+		lim := syscall.Rlimit{Cur: workerASLimit + currentVMSize(), Max: workerASLimit + currentVMSize()}
+		_ = syscall.Setrlimit(syscall.RLIMIT_AS, &lim)
 		w := bufio.NewWriter(os.Stdout)
 		for i := lo; i < hi; i++ {
 			fmt.Fprintf(w, "S %d\n", i)
